@@ -137,6 +137,8 @@ def gen(seed, tier):
             'bufsize': r.choice((64, 512, 8192, 65536)),
             'tick': r.choice((0.37, 0.37, 1e-7, 45.0)),
             'second': r.choice(('same', 'earlier', 'later', 'none')),
+            # a pack of the still empty storage before anything else
+            'prepack': r.random() < 0.12,
             'tier': tier}
 
 
@@ -177,12 +179,23 @@ def run_history(case, pack_op, label, stats, keys):
                opts=dict(case['opts'], protect_root=True))
     info = None
     try:
+        if case.get('prepack'):
+            try:
+                d.st.pack(sim.clock.now + 1, __import__(
+                    'ZODB.serialize', fromlist=['x']).referencesf)
+            except Exception as e:      # noqa: B902
+                d.flag('pack-of-empty-raises', '%s: %s'
+                       % (type(e).__name__, str(e)[:80]))
         for op in case['ops']:
             d.execute(op)
         ntx = len(d.model.txns)
         if pack_op is not None:
             out = d.execute(pack_op)
             info = d.last_pack
+            if out.startswith('pack-raises') and 'lready packing' in \
+                    str(info.get('raised')):
+                d.flag('pack-refused-alone', 'pack refused (%s) although '
+                       'no other pack is running' % info['raised'])
             stats['pack:' + out.split(':')[0]] = \
                 stats.get('pack:' + out.split(':')[0], 0) + 1
             if out == 'pack':
